@@ -20,6 +20,7 @@ driver_of() {
     C13|C14) echo text ;;
     C15) echo cxx ;;
     C17) echo footprint ;;
+    C18) echo xbuild ;;
     *) echo "" ;;
   esac
 }
@@ -104,6 +105,9 @@ if [ "${1:-}" = replay ]; then
   f=${2:?replay file}
   drv=$(sed -n 's/^check: //p' "$f" | head -1)
   prop=$(sed -n 's/^property: //p' "$f" | head -1)
+  if [ "$drv" = xbuild ]; then
+    echo "replay: re-running the C18 check (a digest difference is a property of two build configurations)"; exec $V/run.sh C18 quick
+  fi
   if [ "$drv" = footprint ]; then
     # footprint findings are properties of a build configuration, not of an input: re-run the check itself
     echo "replay: re-running the C17 check (its violations are per build configuration)"; exec $V/run.sh C17 quick
@@ -122,6 +126,12 @@ if [ "${1:-}" = replay ]; then
   exit $rc
 fi
 
+if [ "${1:-}" = setup ]; then
+  # nothing is cached between runs: every check rebuilds the library and its driver from $REPO. Setup only proves the toolchain works.
+  mkdir -p $V/build $V/evidence $V/replays
+  for d in nav api verify stream decode writer text; do build $d || { echo "setup: building $d failed"; exit 2; }; done
+  echo "setup ok"; exit 0
+fi
 prop=${1:?property id}
 tier=${2:-${VERIF_TIER:-quick}}
 drv=$(driver_of $prop)
@@ -129,5 +139,6 @@ drv=$(driver_of $prop)
 mkdir -p $V/evidence
 if [ "$drv" = cxx ]; then run_cxx $tier; fi
 if [ "$drv" = footprint ]; then run_footprint $tier; fi
+if [ "$drv" = xbuild ]; then exec python3 $V/tools/xbuild.py $REPO $V $tier; fi
 build $drv || { echo "HARNESS-ERROR: build failed"; exit 2; }
 exec $V/build/$drv/$drv --prop $prop --tier $tier
